@@ -283,6 +283,13 @@ Section Model.
          | OSIterate thr rel steps => iterate_via_func f m ps origin thr rel steps
          end.
 
+  (* @over_sample wrapper applied to Grid2DOverSampled(grid=held, over_sampler=OverSamplerUniform(m, ss)): the FIRST branch
+     of the wrapper, `result = func(obj, grid.grid); return grid.over_sampler.binned_array_2d_from(array=result)`: the user
+     function is evaluated on the points the object HOLDS (shifted / ray-traced / deflected sub-points), whatever the
+     sampler's own uniform sub-pixel centres are; the sampler only says which points belong to which pixel *)
+  Definition decorated_oversampled (f : Num * Num -> Num) (m : mask) (ss : list nat) (held : list (Num * Num)) : list Num :=
+    binned (map f held) m ss.
+
   (* ================================================================ SPECIFICATION (independent) *)
   (* centre of pixel (y, x): origin + offset from the array centre, y upwards *)
   Definition pixel_centre (H W : nat) (ps origin : Num * Num) (p : nat * nat) : Num * Num :=
@@ -308,6 +315,10 @@ Section Model.
   Definition spec_binned (arr : list Num) (ss : list nat) : list Num := map mean (chop (map (fun s => (s * s)%nat) ss) arr).
   Definition spec_via_func (f : Num * Num -> Num) (m : mask) (ps origin : Num * Num) (ss : list nat) : list Num :=
     map (fun cs => mean (map f (block ps (fst cs) (snd cs)))) (combine (spec_centres m ps origin) ss).
+
+  (* per-pixel mean of f over the pixel's own s_i^2 HELD points (consecutive blocks of the held list) *)
+  Definition spec_held (f : Num * Num -> Num) (ss : list nat) (held : list (Num * Num)) : list Num :=
+    map (fun pts => mean (map f pts)) (chop (map (fun s => (s * s)%nat) ss) held).
 
   (* the iterative rule, per pixel, over the list of level values *)
   Definition agrees (thr rel : option Num) (prev cur : Num) : bool :=
@@ -360,6 +371,11 @@ Inductive case :=
 | KViaFunc (exact : bool) (m : mask) (ps origin : Q * Q) (ss : list nat) (f : ufun Q) (out : list Q)
   (* @over_sample-decorated method on Grid2D.from_mask(mask, over_sampling=...) *)
 | KDecor (exact : bool) (m : mask) (ps origin : Q * Q) (os : os_case) (f : ufun Q) (out : res (list Q))
+  (* @over_sample-decorated method on a Grid2D whose VALUES are not the pixel centres of its mask (a shifted / deflected /
+     derived grid carrying over_sampling=...) *)
+| KDecorVals (exact : bool) (m : mask) (ps origin : Q * Q) (vals : list (Q * Q)) (os : os_case) (f : ufun Q) (out : res (list Q))
+  (* @over_sample-decorated method on Grid2DOverSampled(grid=held, over_sampler=OverSamplerUniform(mask, sub_size)) *)
+| KHeld (exact : bool) (m : mask) (ss : list nat) (held : list (Q * Q)) (f : ufun Q) (out : list Q)
   (* OverSamplerIterate(mask, ...).array_via_func_from *)
 | KIter (m : mask) (ps origin : Q * Q) (thr rel : option Q) (steps : list nat) (f : ufun Q) (out : res (list Q)).
 
@@ -376,6 +392,8 @@ Definition agree (k : case) : bool :=
   | KViaFunc e m ps og ss f out => qlist_eq e (@array_via_func QOps (@eval_ufun QOps f) m ps og ss) out
   | KDecor e m ps og os f out =>
       rq_eq e (@decorated QOps (@eval_ufun QOps f) m ps og (@grid_slim_via_mask QOps m ps og) (os_of os)) out
+  | KDecorVals e m ps og vals os f out => rq_eq e (@decorated QOps (@eval_ufun QOps f) m ps og vals (os_of os)) out
+  | KHeld e m ss held f out => qlist_eq e (@decorated_oversampled QOps (@eval_ufun QOps f) m ss held) out
   | KIter m ps og thr rel steps f out => rq_eq true (@iterate_via_func QOps (@eval_ufun QOps f) m ps og thr rel steps) out
   end.
 
@@ -418,6 +436,21 @@ Definition spec_ok (k : case) : bool :=
       | CUniformMap ss => negb (shape_ok m ss) || rq_eq e (Ok (@spec_via_func QOps (@eval_ufun QOps f) m ps og ss)) out
       | CIterate thr rel steps => spec_iter_ok e (@eval_ufun QOps f) m ps og thr rel steps out
       end
+  | KDecorVals e m ps og vals os f out =>       (* sub-size one: the plain evaluation on the HELD values; else as KDecor *)
+      negb (rectb m && ps_ok ps) ||
+      match os with
+      | CUniformInt s =>
+          negb (Nat.leb 1 s) ||
+          rq_eq e (Ok (if Nat.eqb s 1 then map (@eval_ufun QOps f) vals
+                       else @spec_via_func QOps (@eval_ufun QOps f) m ps og (repeat s (length (unmasked m))))) out
+      | CUniformMap ss =>
+          negb (shape_ok m ss) ||
+          rq_eq e (Ok (if all_ones ss then map (@eval_ufun QOps f) vals else @spec_via_func QOps (@eval_ufun QOps f) m ps og ss)) out
+      | CIterate thr rel steps => spec_iter_ok e (@eval_ufun QOps f) m ps og thr rel steps out
+      end
+  | KHeld e m ss held f out =>
+      negb (shape_ok m ss && Nat.eqb (length held) (list_sum (map (fun s => s * s)%nat ss)))
+      || qlist_eq e (@spec_held QOps (@eval_ufun QOps f) ss held) out
   | KIter m ps og thr rel steps f out =>
       negb (rectb m && ps_ok ps) || spec_iter_ok true (@eval_ufun QOps f) m ps og thr rel steps out
   end.
